@@ -190,6 +190,9 @@ def run(tier, seed, replay=None):
         depth = 2 if tier == "quick" else 3
         cases = [c for c in corpus if c.startswith("seq")] + exhaustive(model_bin, depth, [1] if tier == "quick" else [0, 1], tier != "quick") \
             + random_histories(rng, 400 if tier == "quick" else 6000, 40)
+        # the same kind of histories with every deletion made through DeleteBlock(const NiRef&) on a reference that lives
+        # inside a surviving block (what NifFile::DeleteShape does); the model's operation is the same
+        cases += [c + " viaref=1" for c in random_histories(rng, 300 if tier == "quick" else 3000, 40)]
         files = sorted(f for f in os.listdir(samples_dir) if f.endswith(".nif"))
         filecases = [c for c in corpus if c.startswith("fileseq")]
         for f in files:
@@ -210,6 +213,8 @@ def run(tier, seed, replay=None):
                     else:
                         ops.append("Og%d" % rng.randint(1, 10 ** 6))
                 filecases.append("fileseq name=%s ops=%s" % (f, ";".join(ops)))
+                if any(o.startswith("D") for o in ops):
+                    filecases.append("fileseq name=%s ops=%s viaref=1" % (f, ";".join(ops)))
     # synthetic histories
     impl = vlib.run_cases_robust(impl_bin, ["graph"], cases, timeout_per_batch=900, batch=4000, env=env)
     model = vlib.run_cases_robust(model_bin, ["graph"], cases, timeout_per_batch=900, batch=4000)
